@@ -1958,6 +1958,40 @@ namespace awkward {
         true);
       util::handle_error(err, classname(), identities_.get());
 
+      if (shifts.length() > 0) {
+        // the positions do not count the missing values that were taken out:
+        // shift them as NumpyArray::argsort_next does for numbers
+        int64_t ranges_length = 0;
+        struct Error err2 = kernel::sorting_ranges_length(
+          kernel::lib::cpu,   // DERIVE
+          &ranges_length,
+          parents.data(),
+          parents.length());
+        util::handle_error(err2, classname(), identities_.get());
+
+        Index64 ranges(ranges_length);
+        struct Error err3 = kernel::sorting_ranges(
+          kernel::lib::cpu,   // DERIVE
+          ranges.data(),
+          ranges_length,
+          parents.data(),
+          parents.length());
+        util::handle_error(err3, classname(), identities_.get());
+
+        struct Error err4 = kernel::NumpyArray_rearrange_shifted(
+          kernel::lib::cpu,   // DERIVE
+          output.data(),
+          shifts.data(),
+          shifts.length(),
+          ranges.data(),
+          ranges_length,
+          parents.data(),
+          parents.length(),
+          starts.data(),
+          starts.length());
+        util::handle_error(err4, classname(), identities_.get());
+      }
+
       ContentPtr out = std::make_shared<NumpyArray>(output);
 
       return out;
